@@ -715,6 +715,11 @@ func init() {
 			c.WhoWrites("C11")
 			c.BadgerBufferDiscipline("C11")
 			c.DecodeFreshTarget("C11")
+			if sl := c.Slashing("C11.anchors"); sl.OK() {
+				// the record that is exported holds only what was signed
+				c.StateStoreDiscipline("C11", sl, "att")
+				c.StateStoreDiscipline("C11", sl, "prop")
+			}
 			c.SameStore("C11")
 			c.ImportRules("C10") // the round trip ends in the import command
 		},
